@@ -51,6 +51,21 @@ CLAIMS = {
   note="Trusted: Coq kernel; Node.v/Spec.v (tied by differential runs); answers compared as JSON values (tmjson writes map members in iteration order). stakes/voting_power and vm_call are outside the property's list. No axioms.",
   technique="Rocq proof (committed versions append-only => query answers immutable) + repeated-query stability run on the real node",
   ref="DESIGN.md section 7 C19"),
+ "C13": dict(
+  text="C13_holds (Props/C13.v): over every run from a genesis an account's withdrawable reward equals everything issued to it minus everything it withdrew (no-wrap hypotheses stated); C13_issuance / C13_issuance_exact: in every block exactly the owners of stakes bonded, in the ledger version consensus derived the powers from (max(1,h-4)), to validators that signed and are recorded there with the power they voted with receive power x rewardPerPower per stake, every other record is untouched and the issued total is the sum; C13_withdraw_bounded / C13_withdraw_exact: a withdrawal succeeds only up to the withdrawable amount and credits exactly the requested amount; C13_other_tx/end_block/commit: nothing else touches the reward ledger. Tie: Spec.v on the real node's histories (issued totals, reward records, balances) + trace predicate P_C13, which also REQUIRES that a signing validator's recorded power equals its voting power (where the code silently pays nothing otherwise). Known finding (not repaired): staking to a genesis validator in block 1 withholds its rewards in blocks 2-4. Fixed: block-4 issuance read the latest version (26d7b57).",
+  note="Trusted: Coq kernel; Spec.v (tied by differential runs); consensus_ok (votes as Tendermint derives them, simulated by the harness); supply bound for the non-modular forms. No axioms.",
+  technique="Rocq proofs (issuance formula, ledger identity over all runs, withdrawal exactness) + Spec-vs-RigoApp correspondence and trace predicate",
+  ref="DESIGN.md section 7 C13"),
+ "C14": dict(
+  text="C14_holds (Props/C14.v): BeginBlock changes nothing but what the evidence and the missed votes of the block prescribe: accounts, frozen proposals, parameters and control state unchanged, proposals only by the governance-side punishment, delegatees and unbonding stakes only by the staking-side punishment and by jailing; C14_slash: per evidence item every stake keeps power - floor(power*ratio/100) or is forfeited when that floor is < 1, totals recomputed, identity and order of remaining stakes unchanged; C14_stake_frame / C14_gov_frame / C14_voter: once per item, unknown validators change nothing, every other delegatee / proposal / voter untouched, voter weight shrinks by the same floor with re-cast choice and recomputed total/majority; C14_jail with C14_marks_increasing: all stake moves to unbonding IFF signed blocks in the window fall below the minimum, otherwise only the miss record changes. C14_dup_hash_refuted shows the distinct-hash hypothesis is needed. Tie: Spec.v on the real node's histories (delegatees, unbonding stakes, proposals) + trace predicate P_C14.",
+  note="Trusted: Coq kernel; Spec.v (tied by differential runs); stake hashes distinct within a delegatee, powers < 2^63, ratio in [0,100]. No axioms.",
+  technique="Rocq proofs (slash arithmetic, frame conditions, jailing rule) + Spec-vs-RigoApp correspondence and trace predicate",
+  ref="DESIGN.md section 7 C14"),
+ "C17": dict(
+  text="PARTIAL (the interpreter is go-ethereum's). C17_wrapper_refines_reference(_tx) (Props/C17.v): for EVERY sequence of StateDB interface calls obeying the Berlin access-list discipline, issued after Snapshot-then-Prepare, with arbitrary stale EVM-side balances/nonces, every balance/nonce read through the StateDBWrapper returns what a reference world initialised with the native ledger returns (simulation invariant relating the wrapper's snapshot tags to go-ethereum's journal revisions); C17_tx_success / C17_finish_syncs_out / C17_finish_order_irrelevant: after Finish the native ledger equals the reference world's balances and nonces on every touched address, unchanged elsewhere, independent of map iteration order; C17_top_level_revert_no_effect: the failure path leaves the native ledger unchanged; C17_wrapper_refuted_without_snapshot: with Prepare before Snapshot updates are lost (the order the read-only call uses, harmless there). Tie: the real wrapper over a real go-ethereum StateDB and account controller on generated call sequences vs model and reference world; and whole transactions (generated bytecode: storage, value forwarding, nested reverts, CREATE, SELFDESTRUCT, logs, BALANCE; transfers to contracts; low gas) through RigoApp vs a reference EVM: outcome, return data, gas, logs, balances, nonces, code, storage; read-only calls leave state unchanged. Two defects found and repaired (65a371c, 19bb928).",
+  note="Trusted: Coq kernel; go-ethereum v1.10.23 interpreter, journal and trie; EvmWrap.v as a model of statedb.go (tied by differential runs); the access-list discipline of geth's call sites (read off the source, listed in EvmWrapProofs.v). Failed contract transactions are undone completely (C05), so gas is compared for successful executions only. No axioms.",
+  technique="Rocq refinement proof wrapper -> reference world over all disciplined call sequences + wrapper-level and transaction-level differential against go-ethereum",
+  ref="DESIGN.md section 7 C17"),
  "C03": dict(
   text="Props/C03.v: RLP encoding is injective (prefix-free) on items below 2^64 bytes; the field->RLP map of a transaction is injective on decoded transactions of all eight types (bit-cast integer fields included); the signing preimage determines chain id and all signed fields for every chain id not containing ') Signed Message:\\n' (C03_chainid_hypothesis_needed exhibits the collision otherwise); C03_holds: with idealised signature recovery and hashing stated as hypotheses, a signature made for (chain0, tx0) by key k verifies for (chain, tx) only if nothing was altered and tx.From is k's address. The model's preimage is compared byte for byte with the real PreImageToSignTrxRLP on generated vectors, and every single-field alteration of honestly signed transactions is passed to the real VerifyTrxRLP. The no-effect half of the statement is C05; delivery of tampered transactions is exercised by the application-level checks.",
   note="Trusted: Coq kernel; Rlp.v/Preimage.v as a model of go-ethereum rlp + trx.go encoders (tied byte for byte on generated vectors); ECDSA/SHA-256 idealised as explicit hypotheses; chain-id hypothesis; payload kind determined by Type (true of both wire decoders). No axioms.",
@@ -69,7 +84,7 @@ def main():
      "hooks": {"guard": "verif",
                "enable": "go build -tags verif (the harness module /verif/harness replaces github.com/rigochain/rigo-go by /repo, so every check rebuilds from /repo's working tree)",
                "baseline_off_cmd": "cd /repo && go test -vet=off -count=1 -timeout 40m ./...",
-               "source_commits": ["6f51656"], "add_only": True},
+               "source_commits": ["6f51656", "2523a73"], "add_only": True},
      "engines": [{"name": ENGINE, "path": "/verif/check", "serves_properties": sorted(CLAIMS),
                   "kind_free_text": "Coq 8.16.1 theorems about a hand-written Gallina model; the model is tied to /repo on every run by evaluating it (vm_compute) on the operation sequences the Go harness just ran on the real code, and the property predicate shared with the theorem is evaluated on the implementation's observations"}],
      "checks": [], "not_applicable": [],
